@@ -8,7 +8,7 @@ use crate::out::Out;
 use crate::rng::Rng;
 use rosu_map::{Beatmap, BeatmapState, DecodeBeatmap, DecodeState, ParseBeatmapError};
 
-pub const RULE: &str = "files from the structured generator (levels 1-2: hostile numerics, malformed fields) plus targeted corruptions of valid records in every section (field deleted, swapped, overflowed, garbage appended, corruption inside the n-th segment of a multi-segment slider path), each followed by records that would observe residue; every line that a section parser rejects is removed and the file decoded again; non-trivial = the file has at least one rejected routed line; distinct = distinct texts";
+pub const RULE: &str = "files from the structured generator (levels 1-2: hostile numerics, malformed fields) plus targeted corruptions of valid records in every section (field deleted, swapped, overflowed, garbage appended, corruption inside the n-th segment of a multi-segment slider path), each followed by records that would observe residue; key/value sections with the same few keys repeated in any order with valid and invalid values; lines resembling a section header (trailing comment or junk, stray brackets, other case) inside every section; every line that a section parser rejects is removed and the file decoded again; non-trivial = the file has at least one rejected routed line; distinct = distinct texts";
 
 pub struct Probe;
 pub struct ProbeState {
@@ -205,6 +205,59 @@ pub fn generate(tier: &str, seed: u64, out: &mut Out) {
                     lines.push(tail.into());
                 }
                 let nr = check_file(&lines, "late-field-rejection", out);
+                record_case(&lines, nr, out);
+            }
+        }
+    }
+    // key/value sections: the same few keys repeated in any order with valid and invalid values
+    // (an error on a later line must not undo or redo what an earlier accepted line established)
+    let kv_sections: [(&str, &[&str]); 4] = [
+        ("[Difficulty]", &["ApproachRate", "OverallDifficulty", "HPDrainRate", "CircleSize", "SliderMultiplier", "SliderTickRate"]),
+        ("[General]", &["Mode", "SampleSet", "SampleVolume", "StackLeniency", "AudioLeadIn", "PreviewTime", "Countdown", "CountdownOffset", "LetterboxInBreaks", "SpecialStyle"]),
+        ("[Editor]", &["Bookmarks", "DistanceSpacing", "BeatDivisor", "GridSize", "TimelineZoom"]),
+        ("[Metadata]", &["Title", "BeatmapID", "BeatmapSetID", "Tags"]),
+    ];
+    let good = ["0", "1", "2", "3", "5", "9.5", "2.25", "Soft", "Drum", "7,8,9"];
+    let bad = ["abc", "", "9,5", "1e999", "99999999999", "nan", "-", "1.5.2", "0x10"];
+    for i in 0..(if tier == "thorough" { 3000 } else { 400 }) {
+        let (sec, keys) = kv_sections[i % 4];
+        let nk = 2 + r.below(2);
+        let sub: Vec<&str> = (0..nk).map(|_| *r.pick(keys)).collect();
+        let mut lines: Vec<String> = vec![sec.to_string()];
+        for _ in 0..r.range(3, 7) {
+            let k = *r.pick(&sub);
+            let v = if r.chance(3, 5) { *r.pick(&good) } else { *r.pick(&bad) };
+            lines.push(format!("{}:{}", k, v));
+        }
+        lines.extend(["[TimingPoints]", "0,400,4,2,1,60,1,0", "[HitObjects]", "10,20,100,2,0,L|110:20,1,100"].iter().map(|s| s.to_string()));
+        let nr = check_file(&lines, "kv-duplicates", out);
+        record_case(&lines, nr, out);
+    }
+    // lines that resemble a section header (trailing comment or junk, stray brackets, other case)
+    // in the middle of every section, followed by records of the section that was current
+    let secs = ["General", "Editor", "Metadata", "Difficulty", "Events", "TimingPoints", "Colours", "HitObjects"];
+    let bodies: [(&str, [&str; 2]); 6] = [
+        ("[HitObjects]", ["256,192,100,1,0", "10,20,300,2,0,L|110:20,1,100"]),
+        ("[TimingPoints]", ["0,400,4,2,1,60,1,0", "500,-50,4,1,0,70,0,1"]),
+        ("[Events]", ["2,500,900", "0,0,\"bg.png\",0,0"]),
+        ("[Colours]", ["Combo1 : 1,2,3", "Combo2 : 4,5,6"]),
+        ("[Difficulty]", ["ApproachRate:9", "SliderMultiplier:1.7"]),
+        ("[General]", ["Mode:1", "SampleVolume:55"]),
+    ];
+    for (bi, (hdr, body)) in bodies.iter().enumerate() {
+        for (si, sec) in secs.iter().enumerate() {
+            let looks = [
+                format!("[{}] // 2,500,900", sec), format!("[{}]//x", sec), format!("[{}] x", sec), format!("[{}", sec),
+                format!("{}]", sec), format!("[{}]]", sec), format!("[[{}]", sec), format!("x[{}]", sec),
+                format!("[{}]", sec.to_lowercase()), format!("[ {} ]", sec), format!("[{}],1,2", sec),
+            ];
+            for (li, look) in looks.iter().enumerate() {
+                if tier != "thorough" && (bi + si + li) % 3 != 0 {
+                    continue;
+                }
+                let lines: Vec<String> = vec![hdr.to_string(), body[0].to_string(), look.clone(), body[1].to_string(), body[0].to_string(),
+                    "[HitObjects]".to_string(), "1,2,900,1,0".to_string()];
+                let nr = check_file(&lines, "header-lookalike", out);
                 record_case(&lines, nr, out);
             }
         }
